@@ -105,6 +105,15 @@ func c10Trigger(kind string) SAct {
 	switch kind {
 	case "failread", "failread-behind":
 		return SAct{Op: "failread"}
+	default:
+		if len(kind) > 9 && kind[:9] == "failread:" {
+			// "failread:<error kind>" persistent, "failread:once:<error kind>" once and then silence
+			k := kind[9:]
+			if len(k) > 5 && k[:5] == "once:" {
+				return SAct{Op: "failread", Kind: k[5:], On: true}
+			}
+			return SAct{Op: "failread", Kind: k}
+		}
 	case "wfail":
 		return SAct{Op: "wfail", On: true}
 	case "wfail:deadline", "wfail:canceled", "wfail:eof":
@@ -154,6 +163,7 @@ func c10Script(b c10Base) func(r *svRig, step int) *SAct {
 			a := &seq[i]
 			i++
 			if a.Op == "failread" || a.Op == "stop" || (a.Op == "wfail" && a.On) {
+				_ = 0
 				if !triggered {
 					triggered = true
 				}
@@ -248,6 +258,22 @@ func TestC10(t *testing.T) {
 		}
 	}
 	specOnly = false
+
+	// the VALUE of the transport's read error: what real transports return (a protobuf decode error, goat's websocket
+	// sentinel, a net timeout, unexpected EOF, EOF; bare and wrapped), persistently and once-then-silence; handlers in
+	// flight parked on their context / in RecvMsg / in their body; at the quiescent point after the base conversation
+	for _, kind := range svReadErrKinds {
+		for _, once := range []string{"", "once:"} {
+			for _, mode := range []string{"await", "recv", "gate"} {
+				for _, hn := range [][2]int{{1, 1}, {2, 0}, {0, 2}} {
+					n := len(c10BaseActs(c10Base{nu: hn[0], ns: hn[1], mode: mode}))
+					for _, pos := range []int{n, n / 2} {
+						run(c10Base{nu: hn[0], ns: hn[1], mode: mode, trigger: "failread:" + once + kind, pos: pos}, "read-error-value", "errkind:"+kind)
+					}
+				}
+			}
+		}
+	}
 
 	// many handlers: all workers busy (8), a 9th request parks the read loop
 	big := [][2]int{{8, 1}, {9, 0}, {9, 2}}
